@@ -71,3 +71,30 @@ def invTable (t : List Rat) (y : Rat) : Option Rat :=
   else none
 
 end Ndcube
+
+namespace Ndcube
+
+/-! ## The lazily kept slice of a meshed SkyCoord table
+
+`SkyCoordTableCoordinate(mesh=True)` never slices its SkyCoord: it keeps, per component, the slice of
+the *full* table that is currently in force (`_slice`), reads the component through it
+(`_sliced_components`) and, on `__getitem__`, resolves the new item against the component's current
+length (`slice.indices`) and folds it into the kept slice with astropy's `combine_slices`. -/
+
+/-- astropy's `combine_slices(slice1, slice2)` on step-1 slices with explicit non-negative bounds
+(`combine_bounds_agrees` in Props/C19 ties it to the Item-level model `combineSlices`) -/
+def combineBounds (s1 s2 : Nat × Nat) : Nat × Nat :=
+  (s1.1 + s2.1, min s1.2 (s2.2 + s1.1))
+
+/-- one `__getitem__` on one component: `cur` is the kept `[lo, hi)` of the full table -/
+def meshGetitem (cur : Nat × Nat) (se : Option Int × Option Int) : Nat × Nat :=
+  combineBounds cur (sliceBounds (cur.2 - cur.1) se.1 se.2)
+
+/-- `_sliced_components`: the component read through the kept slice -/
+def lazyComponent {α} (t : List α) (cur : Nat × Nat) : List α := (t.drop cur.1).take (cur.2 - cur.1)
+
+/-- a chain of `__getitem__` calls on a fresh coordinate (kept slice = the whole table) -/
+def meshChain (n : Nat) (items : List (Option Int × Option Int)) : Nat × Nat :=
+  items.foldl meshGetitem (0, n)
+
+end Ndcube
